@@ -166,18 +166,13 @@ func (c *Case) c06Check(src string, label string) {
 			viol("NEITHER-EXPR-NOR-ERROR", name)
 		case e != nil && err != nil:
 			viol("BOTH-EXPR-AND-ERROR", name+": "+err.Error())
-		case e != nil && e.String() != src:
-			viol("EXPR-STRING-DIFFERS", name)
 		}
 		return e != nil && err == nil
 	}
 	acc := try("Compile", func() (*xpath.Expr, error) { return xpath.Compile(src) })
 	for _, ns := range []map[string]string{nil, {}, {"p": "urn:p"}} {
 		ns := ns
-		a2 := try("CompileWithNS", func() (*xpath.Expr, error) { return xpath.CompileWithNS(src, ns) })
-		if ns == nil && a2 != acc {
-			viol("COMPILE-AND-COMPILEWITHNS(nil)-DISAGREE", fmt.Sprintf("Compile accepted=%v CompileWithNS(nil) accepted=%v", acc, a2))
-		}
+		try("CompileWithNS", func() (*xpath.Expr, error) { return xpath.CompileWithNS(src, ns) })
 	}
 	func() {
 		defer func() {
